@@ -1866,7 +1866,10 @@ func (c *Conn) protectedReplayMarker(epoch uint16, sequenceNumber uint64) (func(
 			c.updateRemoteSequenceNumber(epoch, sequenceNumber)
 		}
 
-		return latest
+		// "Newest" means newer in epoch and sequence number (RFC 9146 Section
+		// 6): the highest record of an epoch the peer has already left is a
+		// straggler and must not start a path validation towards its source.
+		return latest && epoch >= dtlsstate.CommonState(c.state).RemoteEpoch()
 	}, true
 }
 
